@@ -233,6 +233,81 @@ func runC10(c *Ctx) {
 		c.Cmp("C10-replace-size", hist, fmt.Sprintf("ok %d", size), c.Model.Ask("blk.replace1 1 99"))
 		c.Eval(fmt.Sprintf("directed merge-then-replace %d", k), true)
 	}
+	// directed: table aliasing before a merge.  ReplaceLabel into a label that already exists leaves that label in
+	// two table slots; a following merge must treat every slot (target before, between and after the slots,
+	// target absent, target itself duplicated).
+	for k := 0; k < 8; k++ {
+		nl := 4 + r.Intn(4)
+		dv := &vol{16, 16, 16, make([]uint64, 4096)}
+		for i := range dv.a {
+			dv.a[i] = uint64(1 + r.Intn(nl))
+		}
+		db, err := labels.MakeBlock(dv.bytes(), dv.size())
+		if err != nil {
+			c.Report("H", "C10 directed-makeblock", "MakeBlock failed", err.Error())
+			break
+		}
+		from, to := uint64(1+r.Intn(nl)), uint64(1+r.Intn(nl))
+		if from == to {
+			to = from%uint64(nl) + 1
+		}
+		rb, _, err := db.ReplaceLabel(from, to)
+		if err != nil {
+			c.Report("O", "C10 replace-fails", "ReplaceLabel fails", err.Error())
+			break
+		}
+		for i, l := range dv.a {
+			if l == from {
+				dv.a[i] = to
+			}
+		}
+		hist := fmt.Sprintf("ReplaceLabel %d -> %d\n", from, to)
+		for _, target := range []uint64{1, to, uint64(nl), 77} {
+			merged := map[uint64]bool{to: true}
+			if target == to {
+				merged = map[uint64]bool{uint64(1 + r.Intn(nl)): true}
+				delete(merged, to)
+				if len(merged) == 0 {
+					merged[to%uint64(nl)+1] = true
+				}
+			}
+			if r.Bool() {
+				x := uint64(1 + r.Intn(nl))
+				if x != target {
+					merged[x] = true
+				}
+			}
+			delete(merged, target)
+			if len(merged) == 0 {
+				continue
+			}
+			set := labels.Set{}
+			for l := range merged {
+				set[l] = struct{}{}
+			}
+			h2 := hist + fmt.Sprintf("MergeLabels target %d merged %v\n", target, keysOf(merged))
+			mb, err := rb.MergeLabels(labels.MergeOp{Target: target, Merged: set})
+			if err != nil {
+				c.Report("O", "C10 merge-fails", "MergeLabels fails", blockReplay(dv, h2+err.Error()))
+				continue
+			}
+			want := copyVol(dv)
+			for i, l := range want.a {
+				if merged[l] {
+					want.a[i] = target
+				}
+			}
+			got := decodeOf(mb)
+			if i := firstDiff(got.a, want.a); i != -1 {
+				c.Report("O", "C10 merge-differs", "the operation on the compressed block differs from the operation on the array",
+					blockReplay(dv, h2+fmt.Sprintf("(array shown after the replace) first differing voxel %d got %d want %d\n", i, at(got.a, i), at(want.a, i))))
+			}
+			c.Model.Ask(blockLine(rb))
+			c.Model.Ask(fmt.Sprintf("blk.merge %d %s", target, csvU64(keysOf(merged))))
+			c.Cmp("C10-merge", h2, fmt.Sprintf("ok %d %d", len(got.a), fnvLabels(got.a)), c.Model.Ask("blk.hash"))
+			c.Eval("directed replace-then-merge "+h2, true)
+		}
+	}
 	iters := 30
 	if c.Thorough {
 		iters = 400
